@@ -834,7 +834,7 @@ impl ChunkHeaderPacked {
             flags_size,
             padding_size,
         } = self;
-        if padding_size & 0b1111_0000 != 0 {
+        if padding_size & 0b1100_0000 != 0 {
             warn.warn(Warning::ChunkHeaderPadding);
         }
         ChunkHeader {
